@@ -105,7 +105,7 @@ def read_ww3_station(filename_or_fileglob):
             spec_count += len(vals)
 
     spectra = np.array(spectra)
-    times = np.unique(date)
+    times = date
     locs = np.unique(loc)
     lats = np.unique(lat)
     lons = np.unique(lon)
@@ -163,7 +163,7 @@ def read_ww3_station(filename_or_fileglob):
         {"_units": "m^{2}.s.degree^{-1}", "_variable_name": "VaDens"}
     )
 
-    return dset
+    return dset.sortby(attrs.TIMENAME)
 
 
 class WW3StationBackendEntrypoint(BackendEntrypoint):
